@@ -828,6 +828,44 @@ func c12CheckIntact(store string, readable map[string]*Manifest) []string {
 	return bad
 }
 
+// c12CheckDebris evaluates, on the real files, the hypothesis under which the Lean pull theorems hold for a
+// store with download debris (`PartOK` / `PullPre`): every READABLE part record of a blob the registry serves
+// describes a range inside the blob, has Completed <= Size, and the bytes it declares complete are in the
+// -partial file. (Unreadable records, missing records and missing -partial files are allowed.)
+func c12CheckDebris(store string, op *c12Op) (bad []string, records int) {
+	for _, b := range op.Blobs {
+		base := filepath.Join(store, "blobs", strings.ReplaceAll(b.Digest, ":", "-"))
+		recs, _ := filepath.Glob(base + "-partial-*")
+		if len(recs) == 0 {
+			continue
+		}
+		data := b.bytes()
+		partial, _ := os.ReadFile(base + "-partial")
+		for _, rp := range recs {
+			raw, err := os.ReadFile(rp)
+			if err != nil {
+				continue
+			}
+			var r jsonBlobDownloadPart
+			if json.Unmarshal(raw, &r) != nil {
+				continue
+			}
+			records++
+			name := filepath.Base(rp)[7:19] + "…" + rp[strings.LastIndex(rp, "-partial-"):]
+			switch {
+			case r.Offset < 0 || r.Size < 0 || r.Offset+r.Size > int64(len(data)):
+				bad = append(bad, fmt.Sprintf("%s: range %d+%d outside the %d-byte blob", name, r.Offset, r.Size, len(data)))
+			case r.Completed < 0 || r.Completed > r.Size:
+				bad = append(bad, fmt.Sprintf("%s: Completed %d > Size %d", name, r.Completed, r.Size))
+			case r.Completed > 0 && (int64(len(partial)) < r.Offset+r.Completed ||
+				!bytes.Equal(partial[r.Offset:r.Offset+r.Completed], data[r.Offset:r.Offset+r.Completed])):
+				bad = append(bad, fmt.Sprintf("%s: declares %d bytes complete at offset %d but the -partial file does not hold them", name, r.Completed, r.Offset))
+			}
+		}
+	}
+	return bad, records
+}
+
 // c12Restart is what Serve does before it starts listening (routes.go Serve), on $OLLAMA_MODELS.
 func c12Restart() (pruned bool, err error) {
 	blobsDir, err := GetBlobsPath("")
@@ -1464,6 +1502,13 @@ func TestVerifC12(t *testing.T) {
 					out.Count("l1_crash_lines")
 				}
 
+				if sc.Op.Kind == "pull" {
+					bad, nrec := c12CheckDebris(dir, sc.Op)
+					out.Add("debris_records_checked", nrec)
+					for _, b := range bad {
+						out.L2("debris-inconsistent", caseLine, "window="+window(n)+" "+b)
+					}
+				}
 				// ---- restart (the real start-up sequence) and the L2 walk
 				t.Setenv("OLLAMA_MODELS", dir)
 				if sc.Op.NoPrune {
